@@ -143,7 +143,7 @@ class Ctx:
         # MemStateQueue: TLC's default DiskStateQueue fails to serialise some lazily evaluated
         # function values of these specs ("StatePoolWriter ... fcnRcd is null")
         return ["java", "-XX:+UseParallelGC", "-Xmx" + xmx, "-Xss64m",
-                "-Dtlc2.tool.queue.IStateQueue=MemStateQueue", "-cp", TLA_CP, "tlc2.TLC",
+                "-Dtlc2.tool.queue.IStateQueue=MemStateQueue", "-Dfile.encoding=UTF-8", "-cp", TLA_CP, "tlc2.TLC",
                 "-workers", str(workers), "-metadir", meta, "-config", cfgname] + list(extra) + [module + ".tla"]
 
 
@@ -224,7 +224,7 @@ def run_mc(ctx, st):
     p = parse_tlc(text)
     res = dict(stage=st["label"], kind="MC", states=p["distinct"], transitions=p["generated"],
                wall_s=round(time.time() - t0, 1), dev=st["dev"], invariants=st["invariants"] + st["properties"],
-               cmd=" ".join(cmd[6:]))
+               cmd=" ".join(cmd[7:]))
     if st["expect_violation"]:
         if p["error"] and "is violated" in p["error"]:
             res["refuted"] = p["error"].splitlines()[0]
@@ -297,7 +297,7 @@ def run_gen(ctx, st):
         raise Infra("%s: replayer exit %d:\n%s" % (st["label"], rp.returncode, out[-1500:] + text[-1500:]))
     summ = parse_summary(out, st["label"])
     res = dict(stage=st["label"], kind="GEN", states=p["distinct"], transitions=p["generated"],
-               wall_s=round(time.time() - t0, 1), cmd=" ".join(cmd[6:]) + " | ucfgconf replay %s %s" %
+               wall_s=round(time.time() - t0, 1), cmd=" ".join(cmd[7:]) + " | ucfgconf replay %s %s" %
                (st["family"], " ".join(st["replay_args"])))
     absorb_summary(ctx, st, summ, res)
     if res["cases"] < st["min_cases"]:
